@@ -176,7 +176,7 @@ func RunPlan(pr *Profile, p *Plan, keep bool) *Outcome {
 			pr.After(w, reason)
 		}
 		out.Reason = reason
-		if e.StopErr != nil {
+		if e.StopErr != nil && e.StopErr != errStop {
 			out.Violations = append(out.Violations, Violation{Prop: pr.Prop, Oracle: "invariant", Msg: e.StopErr.Error(), Step: e.Step, FakeNS: int64(e.Now())})
 		}
 		for _, v := range c.Viol {
